@@ -940,22 +940,27 @@ func (P *Prog) checkPrecedence(r *Result) {
 		fmtF := structField(R.Test, "IssueFmtFunc")
 		var callBlk *ssa.BasicBlock
 		guarded := false
-		eachInstr(fn, func(b *ssa.BasicBlock, _ int, in ssa.Instruction) {
-			ci := callOf(in)
-			if ci == nil || !ci.dynamic {
-				return
-			}
-			if _, f := loadOfField(cv(ci.instr.Common().Value)); f != nil && sameField(f, fmtF) {
-				callBlk = b
-				for _, gd := range guardsOf(b) {
-					if x, eq, ok := isNilCompare(gd.If.Cond); ok {
-						if _, f2 := loadOfField(cv(x)); f2 != nil && sameField(f2, fmtF) && gd.True != eq {
-							guarded = true
+		// (in IssueFromTest itself, or in a closure / helper through which it completes the issue)
+		for _, u := range P.allUnits(fn) {
+			u.with(func() {
+				eachInstr(u.fn, func(b *ssa.BasicBlock, _ int, in ssa.Instruction) {
+					ci := callOf(in)
+					if ci == nil || !ci.dynamic {
+						return
+					}
+					if _, f := loadOfField(cv(ci.instr.Common().Value)); f != nil && sameField(f, fmtF) {
+						callBlk = b
+						for _, gd := range guardsOf(b) {
+							if x, eq, ok := isNilCompare(gd.If.Cond); ok {
+								if _, f2 := loadOfField(cv(x)); f2 != nil && sameField(f2, fmtF) && gd.True != eq {
+									guarded = true
+								}
+							}
 						}
 					}
-				}
-			}
-		})
+				})
+			})
+		}
 		switch {
 		case callBlk == nil:
 			r.bad("C11/precedence", "IssueFromTest#test-formatter", P.pos(fn.Pos()), "the test's own Message/MessageFunc formatter is never invoked when the issue is built")
@@ -977,7 +982,7 @@ func (P *Prog) checkPrecedence(r *Result) {
 			}
 			if _, f := loadOfField(cv(ci.instr.Common().Value)); f != nil && sameField(f, structField(R.Test, "IssueFmtFunc")) {
 				c := fname(f2) + "#calls-test-formatter"
-				if fname(f2) == "(*zog/internals.SchemaCtx).IssueFromTest" {
+				if fname(topLevel(f2)) == "(*zog/internals.SchemaCtx).IssueFromTest" {
 					r.ok("C11/precedence", c, P.ipos(in), "test formatter applied while building the issue from that test")
 				} else {
 					r.bad("C11/precedence", c, P.ipos(in), "a test's Message/MessageFunc formatter is applied outside IssueFromTest: issues that do not come from that test (required, coerce, post-transform, a sibling's) can receive its message, ahead of the execution and global formatters")
